@@ -14,7 +14,10 @@ class SpecError(Exception):
 
 
 class SpecEval:
-    def __init__(self, ex, st, old=None, env=None, facts=None):
+    def __init__(self, ex, st, old=None, env=None, facts=None, defs=None, old_env=None):
+        self.defs = defs if defs is not None else ex.contract.defs
+        # values of the names in `env` in the old state (call sites: the arguments before the call)
+        self.old_env = dict(old_env) if old_env is not None else None
         self.ex = ex            # owning Exec (for records / globals resolution)
         self.st = st
         self.old = old if old is not None else (st.entry or st)
@@ -23,7 +26,14 @@ class SpecEval:
 
     # -- helpers ---------------------------------------------------------------------------
     def sub(self, st=None, env=None):
-        return SpecEval(self.ex, st or self.st, self.old, env if env is not None else self.env, self.facts)
+        oe = None
+        if self.old_env is not None:
+            oe = dict(self.old_env)
+            if env is not None:
+                for k, v in env.items():
+                    if k not in self.env or self.env[k] is not v:
+                        oe[k] = v          # newly bound (quantified / macro) names are state-independent
+        return SpecEval(self.ex, st or self.st, self.old, env if env is not None else self.env, self.facts, self.defs, oe)
 
     def boolean(self, node):
         v = self.ev(node)
@@ -143,8 +153,8 @@ class SpecEval:
             h = getattr(self, "fn_" + name, None)
             if h is not None:
                 return h(node)
-            if name in self.ex.contract.defs or name in S.DEFS:
-                params, body = self.ex.contract.defs.get(name) or S.DEFS[name]
+            if name in self.defs or name in S.DEFS:
+                params, body = self.defs.get(name) or S.DEFS[name]
                 if len(params) != len(node.args):
                     raise SpecError(f"macro {name} expects {len(params)} arguments")
                 env = dict(self.env)
@@ -164,17 +174,14 @@ class SpecEval:
 
     # -- spec functions -------------------------------------------------------------------
     def fn_old(self, node):
-        return SpecEval(self.ex, self.old, self.old, self._env_old(), self.facts).ev(node.args[0])
-
-    def _env_old(self):
-        # quantified variables and macro parameters stay visible inside old()
-        return self.env
+        oe = self.old_env if self.old_env is not None else self.env
+        return SpecEval(self.ex, self.old, self.old, oe, self.facts, self.defs, oe).ev(node.args[0])
 
     def fn_loop_old(self, node):
         if not self.st.loop_entries:
             raise SpecError("loop_old() outside a loop")
         le = self.st.loop_entries[-1]
-        return SpecEval(self.ex, le, self.old, self.env, self.facts).ev(node.args[0])
+        return SpecEval(self.ex, le, self.old, self.env, self.facts, self.defs).ev(node.args[0])
 
     def fn_implies(self, node):
         return V.mk_bool(z3.Implies(self.boolean(node.args[0]), self.boolean(node.args[1])))
@@ -317,7 +324,8 @@ class SpecEval:
     def fn_same(self, node):
         """same(e): e has the same value as in the old state."""
         new = self.ev(node.args[0])
-        old = SpecEval(self.ex, self.old, self.old, self.env, self.facts).ev(node.args[0])
+        oe = self.old_env if self.old_env is not None else self.env
+        old = SpecEval(self.ex, self.old, self.old, oe, self.facts, self.defs, oe).ev(node.args[0])
         return V.mk_bool(O.py_eq(new, old))
 
     def fn_card(self, node):
@@ -497,6 +505,11 @@ def binop(op, a, b, facts):
             return O.set_binop("intersection", a, b, facts)
         if isinstance(op, ast.BitOr):
             return O.set_binop("union", a, b, facts)
+    if a.ty.kind in ("opaque", "name") or b.ty.kind in ("opaque", "name"):
+        if isinstance(op, ast.Add):
+            aa = O.coerce(a, T.OPAQUE) if O.is_strlit(a) else a
+            bb = O.coerce(b, T.OPAQUE) if O.is_strlit(b) else b
+            return apply_uf("concat", T.OPAQUE, [aa, bb])
     if a.ty.kind in ("str", "strlit") or b.ty.kind in ("str", "strlit"):
         if isinstance(op, ast.Add):
             return V.mk_str(z3.Concat(O.coerce(a, T.STR).t, O.coerce(b, T.STR).t))
